@@ -22,6 +22,19 @@ def c02(chk, tier):
     p_registry.run_registry(chk, tier)
 
 
+def c03(chk, tier):
+    c02(chk, tier)
+    p_iterator.run_iterator(chk, tier)
+    # the built-in self-pipe action on full descriptors (shared with C13's probes)
+    import os
+    out = os.path.join(p_probes.WORK, "probe_C03.ndjson")
+    args = ["--bursts", "1,3"]
+    recs = p_probes.run_probe("pipe", args, out)
+    p_probes.count(chk, recs, lambda r: (r.get("kind"), r.get("fill"), r.get("burst"), r["status"]))
+    found = p_probes.validate_records(chk, "TracePipe.tla", out, "V_C03", "pipe")
+    p_probes.report(chk, found, "pipe", args)
+
+
 def c18(chk, tier):
     chk.extra["rule"] = "as C01, plus liveness (FairSpec) on the fine model and livelock/deadlock events on real schedules"
     p_halflock.run_halflock(chk, tier, want_liveness=True)
@@ -46,4 +59,4 @@ def c09(chk, tier):
 
 
 CHECKS = {"C12": p_probes.c12, "C13": p_probes.c13, "C14": p_probes.c14, "C15": p_probes.c15,
-          "C16": p_probes.c16, "C17": p_probes.c17, "C09": c09, "C10": c09, "C11": c09, "C02": c02, "C04": c02, "C05": c02, "C03": c02, "C01": c01, "C18": c18, "C06": c06, "C07": c06, "C08": c06}
+          "C16": p_probes.c16, "C17": p_probes.c17, "C09": c09, "C10": c09, "C11": c09, "C02": c02, "C04": c02, "C05": c02, "C03": c03, "C01": c01, "C18": c18, "C06": c06, "C07": c06, "C08": c06}
